@@ -86,6 +86,7 @@ func c18Sibling(r *gen.Rand, k []byte) []byte {
 // Returns the number of digests compared, and a description on mismatch.
 func c18Program(r *gen.Rand, seen map[uintptr]int) (digests int, steps []string, bad string) {
 	sha256 := r.Bool()
+	perRound := r.Bool() // the two pools used in turn by one caller (same keys included)
 	var prevLong bool
 	// callers often keep ONE key buffer and overwrite it in place (e.g. an MD5 sum into a scratch slice)
 	shared := make([]byte, 0, 320)
@@ -95,6 +96,25 @@ func c18Program(r *gen.Rand, seen map[uintptr]int) (digests int, steps []string,
 		key := c18Key(r, prevLong)
 		if prevKey != nil && r.Chance(1, 3) {
 			key = c18Sibling(r, prevKey)
+		}
+		if perRound {
+			sha256 = !sha256
+			if prevKey != nil && r.Bool() {
+				key = append([]byte(nil), prevKey...) // the very same key, now for the other hash
+			}
+		}
+		// the key may be a window of a larger buffer (a credential inside a packet): what lies behind it - here a canary and
+		// the message itself - is not the pool's to touch
+		var carved, canary []byte
+		if !reuseBuffer && r.Chance(1, 3) {
+			buf := make([]byte, len(key)+96)
+			copy(buf, key)
+			for k := len(key); k < len(buf); k++ {
+				buf[k] = 0xC7 ^ byte(k)
+			}
+			key = buf[:len(key)] // capacity reaches to the end of buf
+			carved = buf[len(key):]
+			canary = append([]byte(nil), carved...)
 		}
 		if reuseBuffer {
 			if r.Bool() && len(shared) > 0 {
@@ -121,11 +141,20 @@ func c18Program(r *gen.Rand, seen map[uintptr]int) (digests int, steps []string,
 			seen[p]++
 		}
 		steps = append(steps, fmt.Sprintf("acquire-%s(key %dB)", name, len(key)))
+		if carved != nil {
+			steps = append(steps, "key is a window of a larger buffer")
+			if !bytes.Equal(carved, canary) {
+				return digests, steps, fmt.Sprintf("acquire wrote behind the key: the %d bytes following it in the caller's buffer changed", len(carved))
+			}
+		}
 		var msg []byte
 		segments := 1 + r.Intn(3)
 		for s := 0; s < segments; s++ {
 			total := r.PickInt([]int{0, 1, 55, 56, 63, 64, 65, 119, 128, r.Intn(4097)})
 			data := r.Bytes(total)
+			if carved != nil && s == 0 && total <= len(carved) {
+				data = carved[:total] // the message is carved from the same buffer, right behind the key
+			}
 			if r.Chance(1, 3) {
 				_, _ = h.Write(nil) // an empty chunk is a legal write and changes nothing
 			}
@@ -206,6 +235,58 @@ func c18(c *core.Ctx) {
 		}
 	}
 	c.Count("acquires_that_returned_a_recycled_object", reused)
+	// (1b) bursts: many objects held at once, released, and held again (more than any fixed-size free list would keep);
+	// every holder writes its own message in turns, every digest is its own
+	c.Section("bursts", c.N(30, 3000), func(i int64, r *gen.Rand) {
+		for round := 0; round < 3; round++ {
+			n := r.PickInt([]int{2, 63, 64, 65, 100, 130, 300})
+			type held struct {
+				h        hash.Hash
+				key, msg []byte
+			}
+			hs := make([]held, n)
+			sha256 := r.Bool()
+			for k := range hs {
+				hs[k].key = r.Bytes(r.PickInt([]int{0, 8, 20, 64, 65, 100}))
+				if sha256 {
+					hs[k].h = hmac.AcquireSHA256(hs[k].key)
+				} else {
+					hs[k].h = hmac.AcquireSHA1(hs[k].key)
+				}
+			}
+			for pass := 0; pass < 2; pass++ {
+				for k := range hs {
+					d := r.Bytes(r.Intn(70))
+					_, _ = hs[k].h.Write(d)
+					hs[k].msg = append(hs[k].msg, d...)
+				}
+			}
+			for k := range hs {
+				var want []byte
+				if sha256 {
+					want = ref.HMACSHA256(hs[k].key, hs[k].msg)
+				} else {
+					want = ref.HMACSHA1(hs[k].key, hs[k].msg)
+				}
+				c.Count("digests_compared", 1)
+				if got := hs[k].h.Sum(nil); !bytes.Equal(got, want) {
+					c.Violate("digest-mismatch", "digest-mismatch:burst", map[string]interface{}{
+						"problem": fmt.Sprintf("holder %d of %d simultaneous holders (round %d): digest %x, crypto/hmac %x", k, n, round, got, want)})
+
+					return
+				}
+			}
+			for k := range hs {
+				if sha256 {
+					hmac.PutSHA256(hs[k].h)
+				} else {
+					hmac.PutSHA1(hs[k].h)
+				}
+			}
+		}
+		c.Eval(1)
+		c.Distinct(uint64(i) | 3<<50)
+	})
 	// (2) many goroutines sharing the pools
 	c.Section("concurrent", c.N(40, 10000), func(i int64, r *gen.Rand) {
 		g := 2 + r.Intn(15)
